@@ -198,8 +198,12 @@ class Rig:
         self.oneway_done = threading.Condition()
         self.oneway_pending = 0
 
+        self.tls = threading.local()
+        self.ann_gates = {}        # conn index -> gate key: that connection's handler waits inside Daemon.annotations() once
+
         class RigDaemon(server.Daemon):
             def validateHandshake(self, conn, data):
+                rig.tls.conn_idx = conn.sock.index
                 if data == "raise":
                     raise ValueError("validator says no")
                 if data == "secraise":
@@ -216,6 +220,13 @@ class Rig:
                     raise RuntimeError("user disconnect hook fails for connection %d" % idx)
 
             def annotations(self):
+                # the daemon calls this hook while it builds a reply: a history may hold one connection's handler here
+                k = rig.ann_gates.pop(getattr(rig.tls, "conn_idx", None), None)
+                if k is not None:
+                    rig.gate_threads.setdefault(k, []).append(threading.current_thread())
+                    rig.gated.add(threading.current_thread())
+                    rig.gate(k).wait(WAIT)
+                    rig.gated.discard(threading.current_thread())
                 return dict(rig.daemon_annotations)
 
         self.daemon_annotations = {}
